@@ -255,12 +255,28 @@ func gen(t *rapid.T) Case {
 		resizable bool
 		rank      int
 		spec      *hist.DSpec
+		dense     bool
 	}
 	var objs []objInfo
 	nobj := rapid.IntRange(2, 6).Draw(t, "nobj")
 	attrNames := []string{"a", "b", "units", "long_attribute_name_0123456789", "c", "d", "e", "f", "g", "h", "i", "j"}
 	newObj := func(i int) hist.Op {
 		p := fmt.Sprintf("/o%d", i)
+		// one new object in five lives inside an existing group and carries the leaf name of an object of the root group:
+		// "/o1" and "/o3/o1" are different objects
+		if i >= 2 && rapid.IntRange(0, 4).Draw(t, "nested") == 0 {
+			for _, g := range objs {
+				if g.kind == "group" && !g.dense {
+					p = fmt.Sprintf("%s/o%d", g.path, rapid.IntRange(0, i-1).Draw(t, "leaf"))
+					break
+				}
+			}
+			for _, o := range objs {
+				if o.path == p {
+					p = fmt.Sprintf("/o%d", i) // that name is taken in the group as well
+				}
+			}
+		}
 		switch rapid.IntRange(0, 9).Draw(t, "isGroup") {
 		case 0, 1:
 			objs = append(objs, objInfo{path: p, kind: "group"})
@@ -275,7 +291,7 @@ func gen(t *rapid.T) Case {
 				}
 			}
 			if len(links) > 0 { // the library refuses a dense group without links
-				objs = append(objs, objInfo{path: p, kind: "group"})
+				objs = append(objs, objInfo{path: p, kind: "group", dense: true})
 				return hist.Op{K: "densegroup", Path: p, Links: links}
 			}
 			objs = append(objs, objInfo{path: p, kind: "group"})
